@@ -95,8 +95,14 @@ const IV: Label = Label::Int(iana::HeaderParameter::Iv as i64);
 const PARTIAL_IV: Label = Label::Int(iana::HeaderParameter::PartialIv as i64);
 const COUNTER_SIG: Label = Label::Int(iana::HeaderParameter::CounterSignature as i64);
 
-impl AsCborValue for Header {
-    fn from_cbor_value(value: Value) -> Result<Self> {
+/// Maximum depth to which counter signatures may nest (a counter signature whose own headers hold
+/// counter signatures, and so on).  A protected header is parsed from the contents of a byte
+/// string, so the recursion limit of the CBOR parser does not bound this nesting.
+pub(crate) const MAX_COUNTER_SIG_DEPTH: usize = 8;
+
+impl Header {
+    /// Parse a header map that is nested inside `depth` levels of counter signatures.
+    pub(crate) fn from_cbor_value_nested(value: Value, depth: usize) -> Result<Self> {
         let m = value.try_as_map()?;
         let mut headers = Self::default();
         let mut seen = BTreeSet::new();
@@ -163,6 +169,11 @@ impl AsCborValue for Header {
                     headers.partial_iv = value.try_as_nonempty_bytes()?;
                 }
                 COUNTER_SIG => {
+                    if depth >= MAX_COUNTER_SIG_DEPTH {
+                        return Err(CoseError::DecodeFailed(
+                            crate::cbor::de::Error::RecursionLimitExceeded,
+                        ));
+                    }
                     let sig_or_sigs = value.try_as_array()?;
                     if sig_or_sigs.is_empty() {
                         return Err(CoseError::UnexpectedItem(
@@ -180,12 +191,15 @@ impl AsCborValue for Header {
                     match &sig_or_sigs[0] {
                         Value::Bytes(_) => headers
                             .counter_signatures
-                            .push(CoseSignature::from_cbor_value(Value::Array(sig_or_sigs))?),
+                            .push(CoseSignature::from_cbor_value_nested(
+                                Value::Array(sig_or_sigs),
+                                depth + 1,
+                            )?),
                         Value::Array(_) => {
                             for sig in sig_or_sigs.into_iter() {
                                 headers
                                     .counter_signatures
-                                    .push(CoseSignature::from_cbor_value(sig)?);
+                                    .push(CoseSignature::from_cbor_value_nested(sig, depth + 1)?);
                             }
                         }
                         v => return cbor_type_error(v, "array or bstr value"),
@@ -204,6 +218,12 @@ impl AsCborValue for Header {
             }
         }
         Ok(headers)
+    }
+}
+
+impl AsCborValue for Header {
+    fn from_cbor_value(value: Value) -> Result<Self> {
+        Self::from_cbor_value_nested(value, 0)
     }
 
     fn to_cbor_value(mut self) -> Result<Value> {
@@ -361,12 +381,18 @@ impl ProtectedHeader {
     /// Constructor from a [`Value`] that holds a `bstr` encoded header.
     #[inline]
     pub fn from_cbor_bstr(val: Value) -> Result<Self> {
+        Self::from_cbor_bstr_nested(val, 0)
+    }
+
+    /// As [`ProtectedHeader::from_cbor_bstr`], for a header that is nested inside `depth` levels of
+    /// counter signatures.
+    pub(crate) fn from_cbor_bstr_nested(val: Value, depth: usize) -> Result<Self> {
         let data = val.try_as_bytes()?;
         let header = if data.is_empty() {
             // An empty bstr is used as a short cut for an empty header map.
             Header::default()
         } else {
-            Header::from_slice(&data)?
+            Header::from_cbor_value_nested(crate::common::read_to_value(&data)?, depth)?
         };
         Ok(ProtectedHeader {
             original_data: Some(data),
